@@ -224,6 +224,23 @@ exit 0
         "mixed": [{"kind": "zip", "name": "prof.zip", "entries": [["default.profraw", pr, "profraw"]]}, {"kind": "dir", "name": "pdir", "entries": [["default.profraw", pd, "profraw"]]},
                   {"kind": "plain", "name": "pl/default.profraw", "blob": pr}, {"kind": "plain", "name": "extra.info", "blob": n["info_a"]}],
     }
+    # same file name in different sub-directories, different contents, spread over a directory (staged as symbolic links into the input) and a
+    # zip (staged with File::create): six name pairs in each role so that, whatever order the producer's hash map yields, some directory member
+    # is staged before the zip member of the same file name; both argument orders; also two directories and two zips
+    pb = [pool.add("profraw_v%d" % k, b"\x81rforpl\xff" + bytes([k]) * 48) for k in range(24)]
+    stems = ["default", "x", "run", "cov", "p0", "zz"]
+    side_a = [["unit/%s.profraw" % st, pb[i], "profraw"] for i, st in enumerate(stems)] + [["u/%s.profdata" % st, pb[6 + i], "profdata"] for i, st in enumerate(stems[:3])]
+    side_b = [["integration/%s.profraw" % st, pb[12 + i], "profraw"] for i, st in enumerate(stems)] + [["i/deep/%s.profdata" % st, pb[18 + i], "profdata"] for i, st in enumerate(stems[:3])]
+    mk = lambda kind, nm, ents: {"kind": kind, "name": nm + (".zip" if kind == "zip" else ""), "entries": ents}
+    for ka, kb in (("dir", "zip"), ("zip", "dir"), ("dir", "dir"), ("zip", "zip")):
+        for order in (0, 1):
+            inp = [mk(ka, "pa", side_a), mk(kb, "pb", side_b)]
+            if order:
+                inp.reverse()
+            out.append({"inputs": inp, "argv": ["-t", "lcov", "-o", "../out/o.lcov"], "out": "out/o.lcov", "tag": "profiles-samename-%s-%s" % (ka, kb)})
+            if order == 0 or tier != "quick":
+                out.append({"inputs": inp, "files": tools, "argv": ["--binary-path", "../bin/app", "--llvm-path", "../tools", "-t", "html", "-o", "../out/html"], "out": "out/html",
+                            "tag": "profiles-samename-%s-%s" % (ka, kb)})
     for tag, inp in prof_inputs.items():
         outs = OUTPUTS[:2] + [OUTPUTS[10], OUTPUTS[11]] if tier == "quick" else OUTPUTS
         for argv, o, pre in outs:
@@ -292,7 +309,7 @@ def run(chk):
     chk.cov["rule"] = ("CLI runs inside a fresh sandbox tree (inputs, a canary sibling directory, the output location, TMPDIR, the working directory), full snapshot "
                        "(paths, sizes, SHA-256, link targets) before and after: 12 output configurations (lcov, html, html into an existing dir, covdir, files, cobertura, "
                        "cobertura-pretty, markdown, ade, coveralls, four types into one directory, stdout) x {benign dir+zip+plain inputs with --llvm, tracefiles whose SF paths are "
-                       "relative with '..', absolute, or normalise outside, with and without -s}; several output types with -o an existing / missing / nested missing directory or a regular file, started from elsewhere and from inside the input directory; GCC path from directories and zips (gcov runs); source-based coverage with stand-in llvm-profdata/llvm-cov and profiles as plain arguments, in a directory, in a zip and mixed; recorded paths with backslashes whose literal file exists under -s and the working directory (html, multi-output); symlinked input directory and links "
+                       "relative with '..', absolute, or normalise outside, with and without -s}; several output types with -o an existing / missing / nested missing directory or a regular file, started from elsewhere and from inside the input directory; GCC path from directories and zips (gcov runs); source-based coverage with stand-in llvm-profdata/llvm-cov and profiles as plain arguments, in a directory, in a zip and mixed, and same-named profiles with different contents in different sub-directories of a directory and a zip (both orders, dir+dir, zip+zip); recorded paths with backslashes whose literal file exists under -s and the working directory (html, multi-output); symlinked input directory and links "
                        "inside an input directory; hostile zips (member names with '..', absolute, '..' that stays inside, 295-byte names, duplicates, hostile .info/.xml names; with and "
                        "without --llvm).  Every changed path must lie in TMPDIR or at the output location, TMPDIR must be empty after exit 0; Model/Confine.v's verdict "
                        "on every hostile member name is evaluated (safe => inside); unsafe members must leave no trace outside (regression guard for the fixed zip-slip).  non-trivial = run with distinct (arguments, changes)")
